@@ -283,6 +283,78 @@ def partial_order_checks(acc):
                               f'tasks(num{suf}={v!r}) selected {[g + 1 for g in got]}, reference {[e + 1 for e in exp]}', {'values': 'nan'})
 
 
+def link_list_checks(acc):
+    """Dependency lists are task lists too, and they may hold tasks of several WBSs - ids are unique per WBS only: a task with
+    predecessors / successors from two other plans that use the same ids. Queries, bulk assignment and remove_all on such a list."""
+    from pjplan import Task, WBS
+
+    def world():
+        x, y, z = WBS(), WBS(), WBS()
+        hub = Task(1, name='hub')
+        x.roots.append(hub)
+        a1, b1 = Task(2, name='ab', num=2), Task(3, name='ab', num=5)
+        a2, c2 = Task(2, name='ba', num=5), Task(1, name='ab', num=2)
+        y.roots.append(a1)
+        y.roots.append(b1)
+        z.roots.append(a2)
+        z.roots.append(c2)
+        return hub, [a1, b1, a2, c2]
+
+    queries = [('id=2', {'id': 2}), ('id=2,name=ba', {'id': 2, 'name': 'ba'}), ('id=2,num=5', {'id': 2, 'num': 5}), ('id=1', {'id': 1}),
+               ('id=3', {'id': 3}), ('id=7', {'id': 7}), ('id_in_=[2]', {'id_in_': [2]}), ('name=ab', {'name': 'ab'}),
+               ('name=ab,id=2', {'name': 'ab', 'id': 2}), ('num_ge_=3,id=2', {'num_ge_': 3, 'id': 2})]
+
+    def matches(t, kw):
+        for k, v in kw.items():
+            if k.endswith('_in_'):
+                if getattr(t, k[:-4]) not in v:
+                    return False
+            elif k.endswith('_ge_'):
+                if not getattr(t, k[:-4]) >= v:
+                    return False
+            elif getattr(t, k) != v:
+                return False
+        return True
+
+    for side in ('predecessors', 'successors'):
+        for order in ((0, 1, 2, 3), (2, 3, 0, 1), (3, 2, 1, 0)):
+            for qname, kw in queries:
+                for action in ('query', 'assign', 'remove_all'):
+                    hub, others = world()
+                    linked = [others[k] for k in order]
+                    setattr(hub, side, linked)
+                    lst = getattr(hub, side)
+                    exp = [t for t in lst if matches(t, kw)]
+                    case = {'list': f'hub.{side}', 'members (id, name, num)': [(t.id, t.name, t.num) for t in lst], 'filter': qname, 'action': action}
+                    acc.count('evaluations')
+                    acc.count('link_list_cases')
+                    if 0 < len(exp) < 4:
+                        acc.count('nontrivial')
+                    try:
+                        if action == 'query':
+                            got = list(lst(**kw))
+                            if [id(t) for t in got] != [id(t) for t in exp]:
+                                acc.violation('C18', 'query/wrong-selection/link-list-with-equal-ids', f'hub.{side}({qname}) selected '
+                                              f'{[(t.id, t.name) for t in got]}, reference {[(t.id, t.name) for t in exp]}', case)
+                        elif action == 'assign':
+                            lst(**kw).mark = 'X'
+                            marked = [t for t in others if getattr(t, 'mark', None) == 'X']
+                            if {id(t) for t in marked} != {id(t) for t in exp}:
+                                acc.violation('C18', 'bulk-assign/wrong-targets/link-list-with-equal-ids', f'hub.{side}({qname}).mark = X set it on '
+                                              f'{[(t.id, t.name) for t in marked]}, reference {[(t.id, t.name) for t in exp]}', case)
+                        else:
+                            ret = list(lst.remove_all(**kw))
+                            left = list(getattr(hub, side))
+                            if [id(t) for t in ret] != [id(t) for t in exp]:
+                                acc.violation('C18', 'remove_all/wrong-return/link-list-with-equal-ids', f'hub.{side}.remove_all({qname}) returned '
+                                              f'{[(t.id, t.name) for t in ret]}, matches are {[(t.id, t.name) for t in exp]}', case)
+                            if [id(t) for t in left] != [id(t) for t in linked if not matches(t, kw)]:
+                                acc.violation('C18', 'remove_all/wrong-remaining/link-list-with-equal-ids', f'after hub.{side}.remove_all({qname}) the list '
+                                              f'holds {[(t.id, t.name) for t in left]}', case)
+                    except Exception as ex:  # noqa
+                        acc.violation('C18', f'query/raised-{type(ex).__name__}/link-list-with-equal-ids', f'{action} hub.{side}({qname}) raised {ex}', case)
+
+
 def run(rep):
     global _TIER
     _TIER = rep.tier
@@ -291,6 +363,7 @@ def run(rep):
     runtime.run_chunks(_work, [(i, k) for i in range(k)], rep.acc)
     restate_checks(rep.acc)
     partial_order_checks(rep.acc)
+    link_list_checks(rep.acc)
     c = rep.acc.counters
     rep.coverage.update({
         'evaluations': c['evaluations'], 'distinct_nontrivial': c['nontrivial'], 'requery_after_change': c['requery_after_change'],
